@@ -11,3 +11,8 @@ import PorepyVerif.C30.Props
 #print axioms PorepyVerif.C30.pt_poly_le_boundary
 #print axioms PorepyVerif.C30.seg_poly_cross_sound
 #print axioms PorepyVerif.C30.seg_poly_general_min
+#print axioms PorepyVerif.C30.seg_seg_minimal_int
+#print axioms PorepyVerif.C30.membership_convex
+#print axioms PorepyVerif.C30.convex_nearest_on_boundary
+#print axioms PorepyVerif.C30.pt_polygon_minimal_convex
+#print axioms PorepyVerif.C30.seg_poly_minimal_convex
